@@ -27,16 +27,23 @@ OwnSets == { Fn({}, "val"), Fn({"a"}, "val"), Fn({"a"}, "meth"), Fn({"a"}, "fn")
 Init == objs = <<>> /\ noise = <<>>
 (* tagged: the replay gives the object a unique `tag` property so that the language's structural == is identity;      *)
 (* objects with no property at all (tagged = FALSE) and non-object roots (rk # "obj": 5, "s", [1, 2]) have none.          *)
-New(p, own, how, src) == objs' = Append(objs, [proto |-> p, own |-> own, how |-> how, src |-> src, tagged |-> TRUE, rk |-> "obj"]) /\ UNCHANGED noise
-NewEmpty(p, how, src) == objs' = Append(objs, [proto |-> p, own |-> Fn({}, "val"), how |-> how, src |-> src, tagged |-> FALSE, rk |-> "obj"]) /\ UNCHANGED noise
-NewRoot(kind) == objs' = Append(objs, [proto |-> 0, own |-> Fn({}, "val"), how |-> "lit", src |-> 0, tagged |-> FALSE, rk |-> kind]) /\ UNCHANGED noise
+(* above: the built-in prototype over an object whose proto is 0 - Obj for literals; the sibling of such an object shares it *)
+AboveOf(how, src) == IF how = "bro" /\ src # 0 /\ objs[src].proto = 0 THEN objs[src].above ELSE "obj"
+New(p, own, how, src) == objs' = Append(objs, [proto |-> p, own |-> own, how |-> how, src |-> src, tagged |-> TRUE, rk |-> "obj", above |-> AboveOf(how, src)]) /\ UNCHANGED noise
+NewEmpty(p, how, src) == objs' = Append(objs, [proto |-> p, own |-> Fn({}, "val"), how |-> how, src |-> src, tagged |-> FALSE, rk |-> "obj", above |-> AboveOf(how, src)]) /\ UNCHANGED noise
+NewRoot(kind) == objs' = Append(objs, [proto |-> 0, own |-> Fn({}, "val"), how |-> "lit", src |-> 0, tagged |-> FALSE, rk |-> kind, above |-> kind]) /\ UNCHANGED noise
+(* the sibling of a root that is not an object (`5.bro({..})`): a child of the VALUE's prototype (Int, Str, Arr) - an object whose      *)
+(* user-defined chain is itself alone, with that built-in prototype above it                                                         *)
+BroRoot(s, own) == /\ objs[s].rk # "obj"
+                   /\ objs' = Append(objs, [proto |-> 0, own |-> own, how |-> "bro", src |-> s, tagged |-> TRUE, rk |-> "obj", above |-> objs[s].rk])
+                   /\ UNCHANGED noise
 Noise(s1, s2) == noise = <<>> /\ noise' = <<[at |-> Len(objs), a |-> s1, b |-> s2]>> /\ UNCHANGED objs
 Literal(own)   == New(0, own, "lit", 0)
 Bear(src, own) == New(src, own, "bear", src)
 Bro(src, own)  == New(objs[src].proto, own, "bro", src)
 Next == /\ Len(objs) < MaxObjs
         /\ \/ \E own \in OwnSets : \/ Literal(own)
-                                   \/ \E s \in 1..Len(objs) : Bear(s, own) \/ (objs[s].rk = "obj" /\ Bro(s, own))
+                                   \/ \E s \in 1..Len(objs) : Bear(s, own) \/ (objs[s].rk = "obj" /\ Bro(s, own)) \/ BroRoot(s, own)
            \/ NewEmpty(0, "lit", 0)
            \/ \E s \in 1..Len(objs) : NewEmpty(s, "bear", s) \/ (objs[s].rk = "obj" /\ NewEmpty(objs[s].proto, "bro", s))
            \/ (objs = <<>> /\ \E kind \in {"int", "str", "arr"} : NewRoot(kind))
@@ -65,7 +72,7 @@ KindOfObs(o, x) == IF objs[x].tagged \/ objs[x].rk # "obj" THEN KindOf(o, x)
 (* the tag an object shows: its own, else the nearest tagged ancestor's (0: none) *)
 RECURSIVE EffTag(_)
 EffTag(o) == IF o = 0 THEN 0 ELSE IF objs[o].tagged THEN o ELSE EffTag(objs[o].proto)
-RootKind(o) == objs[Chain(o)[Len(Chain(o))]].rk
+RootKind(o) == LET top == objs[Chain(o)[Len(Chain(o))]] IN IF top.rk # "obj" THEN top.rk ELSE top.above
 PublicKeys(o) == {n \in DOMAIN objs[o].own : n \notin {"_p", "_missing"}}
 
 (* ---- properties of the forest (checked on every reachable forest) -------- *)
